@@ -142,6 +142,11 @@ pub struct Hub {
     pub units: VecDeque<UnitEnv>,
     pub boundaries: Vec<Snapshot>,
     pub jit_log: Vec<Vec<i128>>,
+    /// storage failures are drawn per transaction (all its writes fail or none; its commit fails or not): the order of the
+    /// writes inside a transaction then has no influence on which of them fail.  What each operation got is recorded.
+    pub tx_fail: Option<(bool, bool)>,
+    pub sfail_obs: Vec<bool>,
+    pub sfail_log: Vec<Vec<bool>>,
     pub during_done: bool,
     pub http_seen: usize,
     pub during_log: Vec<bool>,
@@ -177,7 +182,7 @@ impl Hub {
         Hub { trace: vec![], wall, mono, env: UnitEnv::default(), pending: BTreeMap::new(), committed: BTreeMap::new(),
             released: BTreeSet::new(), next_gate: 0, http_waiting: None, timers: vec![], wakers: vec![], in_check: false, embedder_lock: false,
             backoffs_in_check: 0, jitters: vec![], cup_sign: None, last_uc_request: None, last_etag_sig: None, last_resp_body: None,
-            old_etags: vec![], boundary: None, dropped_timers: vec![], reboot_phase: false, keys: vec![], units: VecDeque::new(), boundaries: vec![], jit_log: vec![], during_done: false, http_seen: 0, during_log: vec![], mock: None }
+            old_etags: vec![], boundary: None, dropped_timers: vec![], reboot_phase: false, keys: vec![], units: VecDeque::new(), boundaries: vec![], jit_log: vec![], tx_fail: None, sfail_obs: vec![], sfail_log: vec![], during_done: false, http_seen: 0, during_log: vec![], mock: None }
     }
     pub fn log(&mut self, s: String) { self.trace.push(s); }
     pub fn boundary_phase_reboot(&self) -> bool { self.reboot_phase }
@@ -191,6 +196,8 @@ impl Hub {
         self.boundaries.push(s);
         let j = std::mem::take(&mut self.jitters);
         self.jit_log.push(j);
+        let f = std::mem::take(&mut self.sfail_obs);
+        self.sfail_log.push(f);
         self.env = self.units.pop_front().unwrap_or(UnitEnv { next: "M0".into(), allow: "toosoon".into(), ..UnitEnv::default() });
         self.reboot_phase = false;
         self.in_check = false;
@@ -663,7 +670,14 @@ impl HStorage {
     }
     fn op(&mut self, desc: String, apply: impl FnOnce(&mut Hub)) -> Result<(), StoreErr> {
         let mut h = self.0.lock().unwrap();
-        let fail = h.env.sfail.pop_front().unwrap_or(false);
+        let is_commit = desc == "commit";
+        let (wf, cf) = match h.tx_fail {
+            Some(m) => m,
+            None => { let m = (h.env.sfail.pop_front().unwrap_or(false), h.env.sfail.pop_front().unwrap_or(false)); h.tx_fail = Some(m); m }
+        };
+        let fail = if is_commit { cf } else { wf };
+        if is_commit { h.tx_fail = None; }
+        h.sfail_obs.push(fail);
         h.log(format!("S {} -> {}", desc, if fail { "err" } else { "ok" }));
         if fail { Err(StoreErr) } else { apply(&mut h); Ok(()) }
     }
